@@ -43,6 +43,12 @@ func scenC04(r *Run, job *Job) {
 		stallAt = 1 + t.Draw(2*nInv)
 		stallDur = DrawStall(t, 200*time.Second)
 	}
+	// a history: the runtime of the first generation exits after its first invocation, the next invocation fails and
+	// resets the environment; the invocations under test are served by the generation started after that
+	prologue := t.Chance(1, 4)
+	if prologue {
+		nInv += 3
+	}
 	for i := 0; i < nInv; i++ {
 		tr := ""
 		if t.Chance(2, 3) {
@@ -62,6 +68,12 @@ func scenC04(r *Run, job *Job) {
 		return -99
 	}
 	e.BehavFor = BehavForExts(exts, func(p *Proc, b *Behav) {
+		if prologue && w.GenOrdinal(p.Gen) == 1 {
+			if p.IsRT {
+				b.DieAfterInv = 1
+			}
+			return
+		}
 		if p.IsRT {
 			if stallParty == 0 {
 				b.Stalls = map[int]time.Duration{stallAt: stallDur}
@@ -75,12 +87,51 @@ func scenC04(r *Run, job *Job) {
 			b.Stalls = map[int]time.Duration{stallAt: stallDur}
 		}
 	})
-	r.Desc = fmt.Sprintf("C04 exts=%v inv=%d stallParty=%d at=%d dur=%s reorder=%d/%d perm=%d/%d", exts, nInv, stallParty, stallAt, stallDur, r.ReorderNum, r.ReorderDen, e.PermNum, e.PermDen)
+	r.Desc = fmt.Sprintf("C04 exts=%v inv=%d stallParty=%d at=%d dur=%s reorder=%d/%d perm=%d/%d prologue=%v", exts, nInv, stallParty, stallAt, stallDur, r.ReorderNum, r.ReorderDen, e.PermNum, e.PermDen, prologue)
 	r.Logf("%s", r.Desc)
-	e.OnQuiescent = func() { c04Step(r, w, e, exts) }
+	e.OnQuiescent = func() {
+		if !prologue {
+			c04Step(r, w, e, exts, 1, w.Invokes)
+		} else if g, invs := c04Tail(w, e); g > 0 {
+			c04Step(r, w, e, exts, g, invs)
+		}
+	}
 	e.Stuck = func() { r.Failf("C04.liveness", "plan not finished within the bound") }
 	e.Run()
-	c04Final(r, w, e, exts)
+	if !prologue {
+		c04Final(r, w, e, exts, 1, w.Invokes)
+		return
+	}
+	g, invs := c04Tail(w, e)
+	if g <= 1 || len(invs) == 0 {
+		// the scheduled exit came so late that the callers were through before it: nothing left to judge
+		r.Probe("history:prologue-consumed-every-invocation")
+		return
+	}
+	r.Probe("history:reset-before-the-invocations-under-test")
+	c04Final(r, w, e, exts, g, invs)
+}
+
+// c04Tail returns the generation of the latest runtime and the invocations it is there for: those not yet answered
+// when it was started.
+func c04Tail(w *World, e *Engine) (int, []*Invocation) {
+	g := 0
+	for _, a := range e.Actors() {
+		if a.IsRT && a.P.Gen > g {
+			g = a.P.Gen
+		}
+	}
+	rt := rtActor(e, g)
+	if rt == nil || w.GenOrdinal(g) == 1 {
+		return 0, nil
+	}
+	var invs []*Invocation
+	for _, inv := range w.Invokes {
+		if !inv.Call.Done || inv.Call.EndStep > rt.P.ExecStep {
+			invs = append(invs, inv)
+		}
+	}
+	return g, invs
 }
 
 // returnedToNext reports the step at which the actor issued the poll that follows the delivery of id (0 = not yet).
@@ -134,13 +185,13 @@ func rtActor(e *Engine, gen int) *Actor {
 }
 
 // c04Step: barrier invariant at every quiescent point.
-func c04Step(r *Run, w *World, e *Engine, exts []ExtCfg) {
-	rt := rtActor(e, 1)
+func c04Step(r *Run, w *World, e *Engine, exts []ExtCfg, gen int, invokes []*Invocation) {
+	rt := rtActor(e, gen)
 	if rt == nil {
 		return
 	}
-	subs, _ := subscribedActors(e, exts, 1)
-	for _, inv := range w.Invokes {
+	subs, _ := subscribedActors(e, exts, gen)
+	for _, inv := range invokes {
 		if !inv.Dispatched {
 			r.Check(!inv.Call.Done, "C04.answer-without-dispatch", "invocation %d answered (%s) without having been delivered to the runtime", inv.N, inv.Call)
 			continue
@@ -177,20 +228,32 @@ func c04Step(r *Run, w *World, e *Engine, exts []ExtCfg) {
 	}
 }
 
-func c04Final(r *Run, w *World, e *Engine, exts []ExtCfg) {
-	rt := rtActor(e, 1)
+func c04Final(r *Run, w *World, e *Engine, exts []ExtCfg, gen int, invokes []*Invocation) {
+	rt := rtActor(e, gen)
 	r.Check(rt != nil, "C04.no-runtime", "runtime never started")
-	subs, nonsubs := subscribedActors(e, exts, 1)
-	r.Check(len(w.Sup.All()) == 1+len(ExtFiles(exts)), "C04.unexpected-restart", "processes started: %d, expected %d (no reset may happen in this scenario)", len(w.Sup.All()), 1+len(ExtFiles(exts)))
-	for _, inv := range w.Invokes {
+	if rt == nil {
+		return
+	}
+	subs, nonsubs := subscribedActors(e, exts, gen)
+	nProcs := 0
+	for _, p := range w.Sup.All() {
+		if p.Gen >= gen {
+			nProcs++
+		}
+	}
+	r.Check(nProcs == 1+len(ExtFiles(exts)), "C04.unexpected-restart", "processes started for the invocations under test: %d, expected %d (no reset may happen among them)", nProcs, 1+len(ExtFiles(exts)))
+	for _, inv := range invokes {
 		r.Check(inv.Call.Is(200), "C04.caller", "invocation %d: caller got %s", inv.N, inv.Call)
 		r.Check(inv.Dispatched, "C04.caller", "invocation %d never dispatched", inv.N)
 		r.Check(bytes.Equal(inv.Call.Body, inv.Answered), "C04.caller-body", "invocation %d: caller body differs from the runtime's response", inv.N)
 	}
 	// runtime deliveries in caller order, exactly one per invocation
-	r.Check(len(rt.Deliveries) == len(w.Invokes), "C04.runtime-deliveries", "runtime got %d events for %d invocations", len(rt.Deliveries), len(w.Invokes))
+	r.Check(len(rt.Deliveries) == len(invokes), "C04.runtime-deliveries", "runtime got %d events for %d invocations", len(rt.Deliveries), len(invokes))
 	for i, d := range rt.Deliveries {
-		inv := w.Invokes[i]
+		if i >= len(invokes) {
+			break
+		}
+		inv := invokes[i]
 		r.Check(d.Inv == inv && d.ReqID == inv.ReqID, "C04.order", "runtime delivery %d is not invocation %d", i+1, inv.N)
 		r.Check(bytes.Equal(d.Body, inv.Payload), "C04.payload", "runtime delivery %d payload differs", i+1)
 	}
@@ -203,9 +266,12 @@ func c04Final(r *Run, w *World, e *Engine, exts []ExtCfg) {
 				r.Failf("C04.event-type", "%s received a %q event during healthy invocations", a.Who, d.Type)
 			}
 		}
-		r.Check(len(got) == len(w.Invokes), "C04.fanout", "%s (subs %v) got %d INVOKE events for %d invocations", a.Who, a.Subs, len(got), len(w.Invokes))
+		r.Check(len(got) == len(invokes), "C04.fanout", "%s (subs %v) got %d INVOKE events for %d invocations", a.Who, a.Subs, len(got), len(invokes))
 		for i, d := range got {
-			inv := w.Invokes[i]
+			if i >= len(invokes) || i >= len(rt.Deliveries) {
+				break
+			}
+			inv := invokes[i]
 			rd := rt.Deliveries[i]
 			r.Check(d.Ev.RequestID == inv.ReqID, "C04.fanout-id", "%s event %d has id %s, runtime had %s", a.Who, i+1, d.Ev.RequestID, inv.ReqID)
 			r.Check(d.Ev.InvokedFunctionArn == rd.Hdr["Lambda-Runtime-Invoked-Function-Arn"] && d.Ev.InvokedFunctionArn != "", "C04.fanout-arn", "%s event %d arn %q vs runtime %q", a.Who, i+1, d.Ev.InvokedFunctionArn, rd.Hdr["Lambda-Runtime-Invoked-Function-Arn"])
